@@ -52,6 +52,7 @@ type ezConfig struct {
 	Tags  map[string]struct{} `dials:"vfctags" dialsalias:"vfcoldtags"`
 	Plain ezInner             `dials:"vfcplain"`
 	Caps  map[string]string   `dials:"vfccaps" dialsalias:"vfcoldcaps"`
+	Items []EzItem            `dials:"vfcitems" dialsalias:"vfcolditems"`
 }
 
 // ConfigPath implements ez.ConfigWithConfigPath.
@@ -91,6 +92,9 @@ type EzCase struct {
 	// "factoryparams" ConfigFileEnvFlagDecoderFactoryParams.
 	Entry  string            `json:"entry,omitempty"`
 	Supply map[string]uint64 `json:"supply"`
+	// Elems gives the elements of the supplied Items leaf (per expanded key):
+	// each element maps expanded-leaf keys of EzItem to value seeds.
+	Elems map[string][]map[string]uint64 `json:"elems,omitempty"`
 }
 
 func (c EzCase) encoder() string {
@@ -132,6 +136,7 @@ func genEz(t *rapid.T) EzCase {
 	g.allowBoth = rapid.Bool().Draw(t, "allow_both")
 	g.fill(m.fields, "")
 	c.Supply = g.supply
+	c.Elems = g.fillElems()
 	return c
 }
 
@@ -176,36 +181,10 @@ func ezCall(ctx context.Context, c EzCase, cfg *ezConfig, params ez.Params[ezCon
 	return nil, fmt.Errorf("harness: unknown entry point %q", c.Entry)
 }
 
-func ezWant(path string, m *model, set map[string]uint64) ezConfig {
+func ezWant(path string, m *model, set map[string]string, valOf func(f *mfield, key string) reflect.Value) ezConfig {
 	var cfg ezConfig
 	cfg.Path = path
-	var rec func(v reflect.Value, fs []*mfield)
-	rec = func(v reflect.Value, fs []*mfield) {
-		for _, f := range fs {
-			fv := v.FieldByName(f.name)
-			if f.leaf {
-				if seed, ok := set[f.path]; ok {
-					fv.Set(makeVal(f.typ, seed))
-				}
-				continue
-			}
-			present := false
-			for k := range set {
-				if strings.HasPrefix(k, f.path+".") {
-					present = true
-				}
-			}
-			if fv.Kind() == reflect.Pointer {
-				if !present {
-					continue
-				}
-				fv.Set(reflect.New(fv.Type().Elem()))
-				fv = fv.Elem()
-			}
-			rec(fv, f.kids)
-		}
-	}
-	rec(reflect.ValueOf(&cfg).Elem(), m.fields)
+	fillConcrete(reflect.ValueOf(&cfg).Elem(), m.fields, set, valOf)
 	return cfg
 }
 
@@ -234,6 +213,10 @@ func runEz(c EzCase) vrt.Verdict {
 	}
 	root := &docNode{}
 	var parts []string
+	elemVals := map[string]reflect.Value{}
+	var elemBoth []*mfield
+	var elemPats []patInst
+	elemSupplied := false
 	for _, k := range shape.SortedKeys(c.Supply) {
 		x, ok := byKey[k]
 		if !ok {
@@ -245,9 +228,29 @@ func runEz(c EzCase) vrt.Verdict {
 				path[i] = strings.ToUpper(path[i])
 			}
 		}
+		if _, isElem := elemTypeOf(x.f.typ); isElem {
+			v, edoc, both, pats, err := m.elemLeaf(x.f, c.Elems[k], c.Decoder == "toml", c.NoSetSlice, c.encoder() == "upper_snake")
+			if err != nil {
+				return vrt.Discardf("malformed elements")
+			}
+			if v.Len() == 0 && c.Decoder == "toml" {
+				return vrt.Discardf("TOML cannot spell an empty slice of structs")
+			}
+			elemVals[k], elemBoth, elemPats = v, append(elemBoth, both...), append(elemPats, pats...)
+			elemSupplied = elemSupplied || v.Len() > 0
+			root.put(path, edoc)
+			parts = append(parts, fmt.Sprintf("%s(%s)=%s", strings.Join(path, "/"), k, edoc))
+			continue
+		}
 		v := makeVal(x.f.typ, c.Supply[k])
 		root.put(path, docValue(v, c.Decoder == "toml", c.NoSetSlice))
 		parts = append(parts, fmt.Sprintf("%s(%s)=%s", strings.Join(path, "/"), k, textOf(v)))
+	}
+	valOf := func(f *mfield, key string) reflect.Value {
+		if v, ok := elemVals[key]; ok {
+			return v
+		}
+		return makeVal(f.typ, c.Supply[key])
 	}
 	var doc string
 	switch c.Decoder {
@@ -272,6 +275,7 @@ func runEz(c EzCase) vrt.Verdict {
 	f.Close()
 
 	ev := m.eval(c.Supply)
+	ev.both = append(ev.both, elemBoth...)
 	cfg := ezConfig{Path: f.Name()}
 	fset, err := dflag.NewSetWithArgs(dflag.DefaultFlagNameConfig(), &cfg, nil)
 	if err != nil {
@@ -288,9 +292,21 @@ func runEz(c EzCase) vrt.Verdict {
 	}
 	ctx, cancel := context.WithCancel(context.Background())
 	defer cancel()
-	d, gerr := ezCall(ctx, c, &cfg, params)
+	var d *dials.Dials[ezConfig]
+	var gerr error
+	var panicked any
+	func() {
+		defer func() { panicked = recover() }()
+		d, gerr = ezCall(ctx, c, &cfg, params)
+	}()
 	desc := fmt.Sprintf("entry %s, encoder %q, DisableAutoSetToSlice %v, FlattenAnonymousFields %v, %s file %q; supplied: %s", c.entry(), c.encoder(), c.NoSetSlice, c.FlattenAnonymous, c.Decoder, clip(doc, 500), strings.Join(parts, " "))
 
+	if panicked != nil && elemSupplied && strings.Contains(fmt.Sprint(panicked), "reflect.Value.IsNil") {
+		return vrt.KeyedViolationf("alias-in-slice-element", "ez: an alias tag on a field of a struct held in a slice makes the alias-wrapped decoder panic once the slice has an element: %v; %s", panicked, desc)
+	}
+	if panicked != nil {
+		return vrt.KeyedViolationf("panic", "ez panicked: %v; %s", panicked, desc)
+	}
 	if len(ev.both) > 0 {
 		var bn []string
 		for _, f := range ev.both {
@@ -312,7 +328,7 @@ func runEz(c EzCase) vrt.Verdict {
 		if gerr != nil {
 			return vrt.KeyedViolationf("spurious-error", "ez: no field supplied under both names, but: %v; %s", gerr, desc)
 		}
-		want := ezWant(f.Name(), m, ev.set)
+		want := ezWant(f.Name(), m, ev.set, valOf)
 		if df := shape.Diff(reflect.ValueOf(want), reflect.ValueOf(*d.View())); df != "" {
 			return vrt.KeyedViolationf("wrong-value", "ez: config differs from the model at %s (want vs got); %s", df, desc)
 		}
@@ -333,6 +349,13 @@ func runEz(c EzCase) vrt.Verdict {
 	}
 	emptyLabels(ev.pats, c.Supply, lab)
 	embedLabels(m, ev.pats, lab)
+	elemLabels(elemPats, lab)
+	for k, v := range elemVals {
+		lab[fmt.Sprintf("slice-of-struct:len=%d", v.Len())] = true
+		if strings.HasSuffix(k, aliasMark) {
+			lab["slice-of-struct:under-alias-name"] = true
+		}
+	}
 	nonTrivial := false
 	for i, p := range ev.pats {
 		k := "leaf"
@@ -357,7 +380,7 @@ func runEz(c EzCase) vrt.Verdict {
 func TestC14Ez(t *testing.T) {
 	vrt.Check(t, vrt.Prop[EzCase]{
 		ID: "C14", Name: "ez",
-		Rule: "fixed config type ezConfig (an embedded struct at the root and a pointer-embedded struct inside the aliased Outer struct, both with aliased leaves and no tag of their own; aliased string leaf, aliased struct holding an aliased int and an aliased pointer struct with aliased []string / int64 leaves, aliased string set, aliased string map, an unaliased struct with aliased leaves); per aliased field neither / primary / alias / both as in the other C14 checks; " +
+		Rule: "fixed config type ezConfig (an embedded struct at the root and a pointer-embedded struct inside the aliased Outer struct, both with aliased leaves and no tag of their own; aliased string leaf, aliased struct holding an aliased int and an aliased pointer struct with aliased []string / int64 leaves, aliased string set, aliased string map, an unaliased struct with aliased leaves, and an aliased []EzItem whose element fields carry alias tags: 0..3 elements (1..3 in TOML), each with its own pattern per aliased element field and non-zero values, since inside an unpointerified element the zero value is 'not supplied'); per aliased field neither / primary / alias / both as in the other C14 checks; " +
 			"drawn independently: format json|yaml|toml|cue; ez entry point FileExtensionDecoderConfigEnvFlag | YAML/JSON/TOML/CueConfigEnvFlag | ConfigFileEnvFlag (decoder factory) | ConfigFileEnvFlagDecoderFactoryParams; Params.FileFieldNameEncoder nil (2/5) | UPPER_SNAKE | lower_snake | kebab; Params.DisableAutoSetToSlice on/off (on: the set is written as a map of empty maps; on + nil encoder: the alias mangler is the only mangler of the chain); Params.FlattenAnonymousFields on/off (YAML decoder only); " +
 			"keys of the untagged embedded structs by construction: hoisted in YAML when FlattenAnonymousFields, else the encoder's join of the type-name words when an encoder is set, else promoted in JSON / Cue, lower-cased type name in YAML, type name in TOML; the file is written by the harness and read with an explicit, argument-less flag source; " +
 			"oracle: both => error whose innermost cause quotes the field, else View() equals defaults + supplied leaves; non-trivial = >=2 aliased field instances at different depths with different patterns; distinct = distinct case JSON",
